@@ -205,6 +205,18 @@ def run_reorg_case(case, res, prop):
             # header proof against the current tip, which extends the header merkle cache
             w.loop.run_coro(w.db.populate_header_merkle_cache(), fire_timers=False)
             tip = w.db.state.height
+            # clients read the whole index before the reorganisation (whatever the read paths
+            # remember must not survive it)
+            if case.get('read_before', True):
+                ref0 = observe.ref_at(base.blocks, base.height, act)
+                try:
+                    obs0 = observe.observe(w, ref0, what=WHAT)
+                    for field, detail in observe.compare(obs0, ref0, WHAT)[:1]:
+                        failures.append((f'before-reorg:{field}', detail if isinstance(detail, dict)
+                                         else {'v': detail}))
+                except (world.ReaderBlocked, observe.ReadFailed) as e:
+                    failures.append(('before-reorg:read-failed', dict(error=repr(e))))
+                res.count('full_reads_before_reorg')
             for cp in case.get('proofs_before', (tip, tip - 1)):
                 if cp >= 0:
                     w.loop.run_coro(w.db.header_branch_and_root(cp + 1, cp // 2), fire_timers=False)
